@@ -6,6 +6,7 @@ import Driver.Cls
 import Driver.Flood
 import Driver.Grp
 import Driver.Commit
+import Driver.Ev
 /-! Model driver: one request per line on stdin, one answer per line on stdout.
     Pure areas answer from the request alone; `store` threads the backend states. -/
 open Drv
@@ -21,6 +22,7 @@ def dispatch (st : State) (line : String) : State × String :=
   | "cls" :: r => (st, Cls.handle r)
   | "flood" :: r => (st, Flood.handle r)
   | "grp" :: r => (st, Grp.handle r)
+  | "ev" :: r => (st, Ev.handle r)
   | "commit" :: r => let (c', out) := Commit.handle st.commit r; ({ st with commit := c' }, out)
   | "store" :: r => let (s', out) := Store.handle st.store r; ({ st with store := s' }, out)
   | [] => (st, "bad empty")
